@@ -525,7 +525,7 @@ impl<T: RealNumber> PartialEq for DenseMatrix<T> {
 }
 impl<T: RealNumber> From<DenseMatrix<T>> for Vec<T> {
     fn from(dense_matrix: DenseMatrix<T>) -> Vec<T> {
-        dense_matrix.values
+        dense_matrix.to_row_vector()
     }
 }
 
